@@ -197,14 +197,14 @@ def check(ctx, tier):
                     tg = n.targets if isinstance(n, ast.Assign) else [n.target]
                     for t in tg:
                         if isinstance(t, ast.Attribute):
-                            obs.append(Ob("D-b", "R-ORDER", "R-ORDER|validation-writes-state|%s|%s" % (g.short, norm(t)),
-                                          g.loc(n), False, "validation function %s writes state %s" % (g.short, norm(t))))
+                            obs.append(Ob("D-b", "R-ORDER", "R-ORDER|validation-writes-state|%s|%s" % (g.short, g.key(t)),
+                                          g.loc(n), False, "validation function %s writes state %s" % (g.short, g.key(t))))
         # a validation function called again later (after state was written) would be a deferred check
         vnames = {norm(st.value.func) for st in prefix}
         for st in rest:
             for n in ast.walk(st):
                 if isinstance(n, ast.Call) and norm(n.func) in vnames:
-                    obs.append(Ob("D-b", "R-ORDER", "R-ORDER|late-validation|%s|%s" % (f.short, norm(n.func)), f.loc(n),
+                    obs.append(Ob("D-b", "R-ORDER", "R-ORDER|late-validation|%s|%s" % (f.short, f.key(n.func)), f.loc(n),
                                   False, "validation %s is (also) called after the prefix of %s" % (norm(n.func), f.short)))
     # a validation method that exists but is not called from the prefix
     shaper = p.find_class("Shaper")
